@@ -40,6 +40,7 @@ MUTATIONS = [
     "arg-count", "arg-type", "return-wrong-branch", "assign-type", "if-branch-types", "hetero-list",
     "unknown-var", "toplevel-var-in-fun", "match-non-enum", "any-from-if", "call-non-function",
     "update-non-int", "last-expr-loop", "cond-type", "for-non-list", "print-non-string",
+    "use-after-scope", "stale-binder-type",
 ]
 
 BASE_TYPES = [INT, INT, INT, BOOL, STR, LIST(INT), OPT(INT), LIST(STR), OPT(STR), TUP(INT, STR), LIST(OPT(INT)),
@@ -61,6 +62,7 @@ class Gen:
         self.feat = {}
         self.readonly = set()
         self.toplevel_vars = []
+        self.last_block = []
 
     # ---------------------------------------------------------------- helpers
     def f(self, k):
@@ -103,6 +105,39 @@ class Gen:
         while t == UNIT and not allow_unit:
             t = self.rng.choice(BASE_TYPES)
         return t
+
+    def visible(self):
+        cur = {}
+        for sc in self.scopes:
+            for n, t in sc:
+                cur[n] = t
+        return cur
+
+    def binder(self, base, ty):
+        """Name of a for-variable / match binder / closure parameter: fresh, or (SHADOWING) the name of a
+        visible variable of a DIFFERENT type. Returns (name, type of the shadowed outer variable or None)."""
+        cur = self.visible()
+        diff = sorted(n for n, t in cur.items() if t != ty)
+        p = 1.0 if self.mutation == "stale-binder-type" and not self.applied else 0.35
+        if diff and self.chance(p):
+            name = self.rng.choice(diff)
+            self.f("shadow-binder")
+            return name, cur[name]
+        return self.fresh(base), None
+
+    def after_scope(self, pad, name, binder_ty, outer_ty):
+        """Statements after a scope that bound `name` has ended: a use of the OUTER variable at its own type
+        (valid), or mutants that are only well-typed if the ended scope's binding were still visible."""
+        if outer_ty is not None:
+            if self.mut("stale-binder-type", 0.8):
+                return ["%slet %s: %s = %s" % (pad, self.fresh("z"), show(binder_ty), name)]
+            if self.chance(0.7):
+                self.f("use-after-shadow")
+                return ["%slet %s: %s = %s" % (pad, self.fresh("z"), show(outer_ty), name)]
+            return []
+        if self.mut("use-after-scope", 0.6):
+            return ["%sprintln(string_repr(%s))" % (pad, name)]
+        return []
 
     # ---------------------------------------------------------------- expressions
     def lit(self, ty):
@@ -174,6 +209,13 @@ class Gen:
             self.f("match-bool")
             return "match %s { True => { %s } False => { %s } }" % (self.cond(depth + 1), self.expr(ty, depth + 1),
                                                                      self.expr(ty, depth + 1))
+        if ty == INT and k == 9 and self.chance(0.5):
+            self.f("closure-call")
+            pn, _ = self.binder("c", INT)
+            self.scopes.append([(pn, INT)])
+            body = self.expr(INT, depth + 1)
+            self.scopes.pop()
+            return "(fun(%s: Int): Int { %s })(%s)" % (pn, body, self.expr(INT, depth + 1))
         if ty == INT:
             if k < 7:
                 op = r.choice(["+", "-", "*", "+", "-", "%", "/"])
@@ -235,7 +277,7 @@ class Gen:
             lines.extend(self.stmt(indent))
         if tail is not None:
             lines.extend(tail(indent))
-        self.scopes.pop()
+        self.last_block = list(self.scopes.pop())
         return lines
 
     def stmt(self, indent):
@@ -291,10 +333,18 @@ class Gen:
         if k == 6:
             self.f("if-stmt")
             c = self.cond(1)
+            before = self.visible()
             out = ["%sif %s {" % (pad, c)] + self.block(r.randrange(1, 3), indent + 1)
+            inner = [(n, t) for n, t in self.last_block if n not in self.readonly]
             if self.chance(0.5):
                 out += ["%s} else {" % pad] + self.block(r.randrange(1, 3), indent + 1)
-            return out + ["%s}" % pad]
+            out.append("%s}" % pad)
+            if inner:
+                n, t = self.rng.choice(inner)
+                # an inner `let` (possibly shadowing an outer variable of another type) has ended here
+                out += self.after_scope(pad, n, t, before.get(n) if before.get(n) != t else None) \
+                    if (n not in before or before.get(n) != t) else []
+            return out
         if k == 7:
             self.f("while")
             i = self.fresh("i")
@@ -309,7 +359,10 @@ class Gen:
         if k == 8:
             self.f("for")
             et = r.choice([INT, STR, OPT(INT)])
-            x = self.fresh("x")
+            if self.mutation == "any-from-if":
+                x, outer = self.fresh("x"), None
+            else:
+                x, outer = self.binder("x", et)
             if self.mut("any-from-if"):
                 it = "[if %s { %s } else { %s }]" % (self.expr(BOOL, 2), self.expr(INT, 2), self.expr(INT, 2))
                 acc = self.vars_of(INT, writable=True)
@@ -331,12 +384,12 @@ class Gen:
             body = self.block(r.randrange(1, 3), indent + 1)
             self.loop_depth -= 1
             self.scopes.pop()
-            return ["%sfor %s in %s {" % (pad, x, it)] + body + ["%s}" % pad]
+            return ["%sfor %s in %s {" % (pad, x, it)] + body + ["%s}" % pad] + self.after_scope(pad, x, et, outer)
         if k == 9:
             self.f("match-stmt")
             pt = r.choice([INT, STR, LIST(INT)])
-            x = self.fresh("m")
             scrut = self.expr(OPT(pt), 1)
+            x, outer = self.binder("m", pt)
             self.scopes.append([(x, pt)])
             a = self.block(r.randrange(1, 3), indent + 2)
             self.scopes.pop()
@@ -344,7 +397,7 @@ class Gen:
             out = ["%smatch %s {" % (pad, scrut), "%s  Some(%s) => {" % (pad, x)] + a + ["%s  }" % pad]
             if not self.mut("drop-match-arm"):
                 out += ["%s  None => {" % pad] + b + ["%s  }" % pad]
-            return out + ["%s}" % pad]
+            return out + ["%s}" % pad] + self.after_scope(pad, x, pt, outer)
         if k == 10 and self.loop_depth > 0:
             self.f("break/continue")
             return ["%sif %s { %s }" % (pad, self.expr(BOOL, 2), r.choice(["break", "continue"]))]
@@ -399,7 +452,9 @@ class Gen:
                 return ["%swhile False { }" % pad]
             if recursive:
                 self.f("recursion")
-                args = ["(%s - 1)" % pnames[0]] + [self.expr(t, 2) for t in ptys[1:]]
+                # the other arguments are passed on unchanged (a growing argument, e.g. string_repr of a
+                # tuple holding itself, makes the run exponential)
+                args = ["(%s - 1)" % pnames[0]] + list(pnames[1:])
                 rec = "%s(%s)" % (name, ", ".join(args))
                 base = self.expr(rt, 2)
                 step = "(%s + 1)" % rec if rt == INT else rec
